@@ -8,8 +8,12 @@
 package stacks
 
 import (
+	"bytes"
 	"context"
+	"encoding/json"
+	"encoding/xml"
 	"fmt"
+	"io"
 	"net"
 	"net/http"
 	"net/http/httptest"
@@ -90,8 +94,47 @@ type Result struct {
 	WWW      *string `json:"www"`              // WWW-Authenticate header
 	CType    string  `json:"ctype,omitempty"`  // Content-Type without parameters
 	Body     bool    `json:"body"`             // body non-empty
+	BodyWF   bool    `json:"body_wf"`          // the body (if any) is well-formed for the Content-Type it is sent with
 	Marker   bool    `json:"marker,omitempty"` // the upstream's marker header/body was relayed (proxy)
 	Panic    string  `json:"panic,omitempty"`
+}
+
+// WellFormed tells whether a response body is what its Content-Type says: valid JSON,
+// parseable XML with a root element, "<p>...</p>" for text/html, anything for text/plain.
+// An empty body is well-formed; a non-empty body without one of these types is not.
+func WellFormed(ctype string, body []byte) bool {
+	if len(body) == 0 {
+		return true
+	}
+
+	switch ctype {
+	case "application/json":
+		return json.Valid(body)
+	case "application/xml":
+		dec := xml.NewDecoder(bytes.NewReader(body))
+		elems := 0
+
+		for {
+			tok, err := dec.Token()
+			if err == io.EOF {
+				return elems > 0
+			}
+
+			if err != nil {
+				return false
+			}
+
+			if _, ok := tok.(xml.StartElement); ok {
+				elems++
+			}
+		}
+	case "text/html":
+		return bytes.HasPrefix(body, []byte("<p>")) && bytes.HasSuffix(body, []byte("</p>"))
+	case "text/plain":
+		return true
+	}
+
+	return false
 }
 
 func hdr(h http.Header, name string) *string {
@@ -176,6 +219,7 @@ func (s *HTTPStack) DoHeaders(path string, hdrs map[string]string) (res Result) 
 		WWW:      hdr(rec.Header(), "Www-Authenticate"),
 		CType:    mime(rec.Header().Get("Content-Type")),
 		Body:     rec.Body.Len() != 0,
+		BodyWF:   WellFormed(mime(rec.Header().Get("Content-Type")), rec.Body.Bytes()),
 		Marker:   rec.Header().Get("X-Verif-Upstream") != "",
 	}
 }
@@ -269,6 +313,8 @@ func EnvoyResult(resp *envoy_auth.CheckResponse) Result {
 				res.CType = mime(v)
 			}
 		}
+
+		res.BodyWF = WellFormed(res.CType, []byte(d.GetBody()))
 
 		return res
 	}
